@@ -70,7 +70,7 @@ class Summary(object):
 
 class Analyzer(object):
     def __init__(self, src_root):
-        self.funcs = {}; self.summaries = {}; self.stack = []; self.classes = set()
+        self.funcs = {}; self.summaries = {}; self.stack = []; self.classes = set(); self.module_globals = {}
         pkg = os.path.join(src_root, 'gambatools')
         files = [os.path.join(pkg, f) for f in sorted(os.listdir(pkg)) if f.endswith('.py') and f[:-3] not in SKIP_MODULES]
         nb = os.path.join(os.path.dirname(src_root), 'notebooks', 'make_notebook.py')
@@ -79,6 +79,9 @@ class Analyzer(object):
             except SyntaxError: continue
             mod = os.path.basename(path)[:-3]
             for n in tree.body:
+                if isinstance(n, (ast.Assign, ast.AnnAssign)) and isinstance(getattr(n, 'value', None), (ast.Dict, ast.List, ast.Set, ast.Call, ast.DictComp, ast.ListComp, ast.SetComp)):
+                    for tg in (n.targets if isinstance(n, ast.Assign) else [n.target]):
+                        if isinstance(tg, ast.Name): self.module_globals.setdefault(mod, set()).add(tg.id)
                 if isinstance(n, ast.FunctionDef): self.funcs.setdefault(n.name, (mod, n, None))
                 elif isinstance(n, ast.ClassDef):
                     self.classes.add(n.name)
@@ -325,6 +328,8 @@ class FnAnalysis(object):
             v = st.env.get(e.id)
             if isinstance(v, frozenset): return v
             if e.id == 'GambaTools': return frozenset([('glob', 'GambaTools')])
+            mod = self.an.funcs[self.name][0] if self.name in self.an.funcs else None
+            if e.id in self.an.module_globals.get(mod, ()): return frozenset([('glob', e.id)])      # module-level mutable state (caches, registries)
             return E
         if t in ('Constant', 'JoinedStr', 'FormattedValue'): return E
         if t == 'Lambda': return frozenset([self.alloc(st, e, E, 'lambda')])
